@@ -2,16 +2,19 @@
 # seedtest.sh <seed id> <property> [tier]   — apply /verif/seeded/<id>/patch.diff to /repo, run the check, undo.
 set -u
 ID=$1; PROP=$2; TIER=${3:-quick}
-cd /repo || exit 2
+# SEED_REPO / SEED_VERIF: run against a private copy (a git worktree of /repo and a snapshot of /verif whose
+# harness/vcheck/Cargo.toml points at it) so that several loops can run side by side
+REPO=${SEED_REPO:-/repo}; VERIF=${SEED_VERIF:-/verif}
+cd $REPO || exit 2
 if [ -n "$(git status --porcelain --untracked-files=no)" ]; then echo "/repo is dirty"; exit 2; fi
-git apply /verif/seeded/$ID/patch.diff || { echo "patch does not apply"; exit 2; }
-cd /verif
+git apply $VERIF/seeded/$ID/patch.diff || { echo "patch does not apply"; exit 2; }
+cd $VERIF
 # evidence files in /verif/evidence must describe runs on the unchanged tree: keep the current one
-cp -p evidence/$PROP.json /tmp/seedtest-evidence-$PROP.json 2>/dev/null
-./run $PROP $TIER > /tmp/seedtest-$ID-$PROP.log 2>&1
+cp -p evidence/$PROP.json ${SEED_LOGDIR:-/tmp}/seedtest-evidence-$PROP.json 2>/dev/null
+./run $PROP $TIER > ${SEED_LOGDIR:-/tmp}/seedtest-$ID-$PROP.log 2>&1
 RC=$?
-git -C /repo checkout -- .
-if [ -f /tmp/seedtest-evidence-$PROP.json ]; then mv /tmp/seedtest-evidence-$PROP.json evidence/$PROP.json; fi
-echo "seed $ID vs $PROP ($TIER): exit $RC  $(grep -c '^VIOLATION' /tmp/seedtest-$ID-$PROP.log) violation line(s)"
-grep -E "^violation|^regression" /tmp/seedtest-$ID-$PROP.log | head -3
+git -C $REPO checkout -- .
+if [ -f ${SEED_LOGDIR:-/tmp}/seedtest-evidence-$PROP.json ]; then mv ${SEED_LOGDIR:-/tmp}/seedtest-evidence-$PROP.json evidence/$PROP.json; fi
+echo "seed $ID vs $PROP ($TIER): exit $RC  $(grep -c '^VIOLATION' ${SEED_LOGDIR:-/tmp}/seedtest-$ID-$PROP.log) violation line(s)"
+grep -E "^violation|^regression" ${SEED_LOGDIR:-/tmp}/seedtest-$ID-$PROP.log | head -3
 exit $RC
